@@ -79,8 +79,6 @@ def edAfterCrit (tag : Nat) : Nat := tag
 def isolateTag (iso fresh : Nat) : Nat := (if (iso != 0) then iso else fresh)
 /-- `current_isolation` -/
 def isolateSet (cur : Nat) : Nat := cur
-/-- `previous_isolation` -/
-def isolateRestore (prev : Nat) : Nat := prev
 /-- `work_type==work_enqueued&&my_num_slots>my_num_reserved_slots` -/
 def advMandCond (enq : Bool) (numSlots reserved : Nat) : Bool := (enq && (decide (numSlots > reserved)))
 /-- `is_mandatory_needed||are_workers_needed` -/
@@ -121,5 +119,30 @@ def obsEntryOnExecuteJoin : Bool := true
 def obsExitOnExecuteLeave : Bool := true
 def obsExitOnThreadEnd : Bool := true
 def obsEntryOnActivate : Bool := true
+/-! isolate_within_arena skeleton, nested_arena_context, dispatcher / resume / bypass facts: regenerated from the source text -/
+/-- `dispatcher->m_execute_data_ext.isolation` -/
+def isoPrevInit (edIso : Nat) : Nat := edIso
+/-- `previous_isolation` -/
+def isolateRestore (prev : Nat) : Nat := prev
+/-- `no_isolation` -/
+def nestedArenaIso : Nat := 0
+/-- `0` -/
+def baseIso : Nat := 0
+/-- `no_isolation` -/
+def resumeTag : Nat := 0
+/-- `tls->my_task_dispatcher->m_execute_data_ext.isolation` -/
+def execWaitTag (edIso : Nat) : Nat := edIso
+/-- `num_workers_active()<my_num_workers_allotted.load(std::memory_order_relaxed)` -/
+def joinableCond (active allot : Nat) : Bool := (decide (active < allot))
+/-- `num_workers_active()>my_num_workers_allotted.load(std::memory_order_relaxed)` -/
+def recallCond (active allot : Nat) : Bool := (decide (active > allot))
+def isoBodyAssignsPrev : Bool := true
+def isoCompletionByRef : Bool := true
+def isoRestoreOnReturn : Bool := true
+def isoRestoreOnThrow : Bool := true
+def resumeFiltered : Bool := false
+def critRespawnBeforeEd : Bool := true
+def bypassKeepsEd : Bool := true
+def resumeReturnsNoTask : Bool := true
 
 end TbbVerif.Generated.C16
